@@ -123,11 +123,11 @@ def diag_coded_type(s):
 # compu methods
 # ---------------------------------------------------------------------------
 def _limit(v, vt, it="CLOSED"):
-    if v is None and it != "INFINITE":
-        return None
     if isinstance(v, dict):
         it = v.get("it", it)
         v = v.get("v")
+    if v is None and it != "INFINITE":
+        return None  # the element is absent
     return Limit(value_raw=None if v is None else str(v), value_type=vt,
                  interval_type=None if it is None else IntervalType(it))
 
@@ -176,6 +176,59 @@ def compu_method(s, internal_type, physical_type):
     }[cat]
     return cls(category=CompuCategory(cat), compu_internal_to_phys=i2p, compu_phys_to_internal=p2i,
                internal_type=it, physical_type=pt)
+
+
+def compu_method_xml(s):
+    """the same description as ODX text (COMPU-METHOD element)"""
+    from xml.sax.saxutils import escape
+
+    def lim(tag, v):
+        it = "CLOSED"
+        if isinstance(v, dict):
+            it, v = v.get("it", "CLOSED"), v.get("v")
+        if v is None and it != "INFINITE":
+            return ""
+        body = "" if v is None else escape(str(v))
+        return f'<{tag} INTERVAL-TYPE="{it}">{body}</{tag}>'
+
+    def val(c):
+        return f"<VT>{escape(c)}</VT>" if isinstance(c, str) else f"<V>{c}</V>"
+
+    def scale(sc):
+        out = "<COMPU-SCALE>" + lim("LOWER-LIMIT", sc.get("lo")) + lim("UPPER-LIMIT", sc.get("hi"))
+        if "inv" in sc:
+            out += f"<COMPU-INVERSE-VALUE>{val(sc['inv'])}</COMPU-INVERSE-VALUE>"
+        if "const" in sc:
+            out += f"<COMPU-CONST>{val(sc['const'])}</COMPU-CONST>"
+        if "num" in sc:
+            out += "<COMPU-RATIONAL-COEFFS><COMPU-NUMERATOR>" + "".join(f"<V>{c}</V>" for c in sc["num"]) + \
+                "</COMPU-NUMERATOR>"
+            if sc.get("den"):
+                out += "<COMPU-DENOMINATOR>" + "".join(f"<V>{c}</V>" for c in sc["den"]) + \
+                    "</COMPU-DENOMINATOR>"
+            out += "</COMPU-RATIONAL-COEFFS>"
+        return out + "</COMPU-SCALE>"
+
+    cat = s.get("cat", "IDENTICAL")
+    out = f"<COMPU-METHOD><CATEGORY>{cat}</CATEGORY>"
+    if cat != "IDENTICAL":
+        out += "<COMPU-INTERNAL-TO-PHYS><COMPU-SCALES>" + "".join(scale(sc) for sc in s.get("scales", [])) + \
+            "</COMPU-SCALES>"
+        if "default" in s:
+            out += f"<COMPU-DEFAULT-VALUE>{val(s['default'])}</COMPU-DEFAULT-VALUE>"
+        out += "</COMPU-INTERNAL-TO-PHYS>"
+        if "inv_scales" in s:
+            out += "<COMPU-PHYS-TO-INTERNAL><COMPU-SCALES>" + "".join(scale(sc) for sc in s["inv_scales"]) + \
+                "</COMPU-SCALES></COMPU-PHYS-TO-INTERNAL>"
+    return out + "</COMPU-METHOD>"
+
+
+def compu_method_from_xml(s, internal_type, physical_type):
+    """built by odxtools' own parser from the ODX text of the description"""
+    from xml.etree import ElementTree
+    from odxtools.compumethods.createanycompumethod import create_any_compu_method_from_et
+    return create_any_compu_method_from_et(ElementTree.fromstring(compu_method_xml(s)), FRAGS,
+                                           internal_type=internal_type, physical_type=physical_type)
 
 
 # ---------------------------------------------------------------------------
